@@ -25,3 +25,21 @@ func (v *VerifPNGen) NextToSkip() protocol.PacketNumber {
 	}
 	return -1
 }
+
+// VerifSpaceGen exposes the packet number generator state of one packet number space of a
+// sent packet handler (read only): next number, next number to skip (-1: sequential generator),
+// ok=false when the space was dropped.
+func VerifSpaceGen(sph SentPacketHandler, lvl protocol.EncryptionLevel) (next, nextToSkip int64, ok bool) {
+	h := sph.(*sentPacketHandler)
+	sp := h.getPacketNumberSpace(lvl)
+	if sp == nil {
+		return 0, 0, false
+	}
+	switch g := sp.pns.(type) {
+	case *skippingPacketNumberGenerator:
+		return int64(g.next), int64(g.nextToSkip), true
+	case *sequentialPacketNumberGenerator:
+		return int64(g.next), -1, true
+	}
+	return 0, 0, false
+}
